@@ -15,6 +15,7 @@ import (
 	"github.com/nspcc-dev/bbolt"
 
 	objectcore "github.com/nspcc-dev/neofs-node/pkg/core/object"
+	"github.com/nspcc-dev/neofs-node/pkg/local_object_storage/blobstor/fstree"
 	"github.com/nspcc-dev/neofs-node/pkg/local_object_storage/engine"
 	meta "github.com/nspcc-dev/neofs-node/pkg/local_object_storage/metabase"
 	"github.com/nspcc-dev/neofs-node/pkg/local_object_storage/shard"
@@ -232,6 +233,23 @@ func fastBolt() meta.Option {
 	return meta.WithBoltDBOptions(&bbolt.Options{Timeout: time.Second, InitialMmapSize: 4 << 20, NoSync: true, NoGrowSync: true})
 }
 
+// The worlds reuse one object ID in several containers (that is what stresses
+// the cursor at container boundaries). FSTree "combined" files index members
+// by object ID only, so they are switched off (HARNESS.md pitfall); no
+// write-cache is configured for the same reason. The listing itself never
+// reads blobs.
+var noCombined = []fstree.Option{fstree.WithCombinedCountLimit(1)}
+
+// repeat runs k independent worlds per rapid case: the three levels differ a
+// lot in cost per world while the driver passes one -rapid.checks per unit.
+func repeat(k int, one func(*rapid.T)) func(*rapid.T) {
+	return func(t *rapid.T) {
+		for i := 0; i < k; i++ {
+			one(t)
+		}
+	}
+}
+
 func must(t *rapid.T, what string, err error) {
 	if err != nil {
 		t.Fatalf("setup: %s: %v", what, err)
@@ -243,7 +261,7 @@ func must(t *rapid.T, what string, err error) {
 func TestC06Meta(t *testing.T) {
 	rec := ev.New("C06", "meta")
 	defer rec.Flush()
-	rapid.Check(t, func(t *rapid.T) {
+	rapid.Check(t, repeat(6, func(t *rapid.T) {
 		w := genWorld(t, 1)
 		e := expect(w, true)
 		starts := genStarts(t, e)
@@ -286,7 +304,7 @@ func TestC06Meta(t *testing.T) {
 			list:      db.ListWithCursor,
 			newCursor: meta.NewCursor,
 		}, w, e, starts, rec)
-	})
+	}))
 }
 
 // ---- shard level ----
@@ -294,7 +312,7 @@ func TestC06Meta(t *testing.T) {
 func TestC06Shard(t *testing.T) {
 	rec := ev.New("C06", "shard")
 	defer rec.Flush()
-	rapid.Check(t, func(t *rapid.T) {
+	rapid.Check(t, repeat(2, func(t *rapid.T) {
 		w := genWorld(t, 1)
 		e := expect(w, true)
 		starts := genStarts(t, e)
@@ -305,7 +323,7 @@ func TestC06Shard(t *testing.T) {
 			ev.Inconclusive("mkdtemp: %v", err)
 		}
 		defer os.RemoveAll(dir)
-		sh, err := stor.OpenShard(stor.ShardCfg{Dir: dir, Epoch: &stor.Epoch{}, WriteCache: rapid.Bool().Draw(t, "write-cache"), MetaOpts: []meta.Option{fastBolt()}})
+		sh, err := stor.OpenShard(stor.ShardCfg{Dir: dir, Epoch: &stor.Epoch{}, MetaOpts: []meta.Option{fastBolt()}, FSTOpts: noCombined})
 		must(t, "open shard", err)
 		defer sh.Close()
 
@@ -322,7 +340,7 @@ func TestC06Shard(t *testing.T) {
 			list:      sh.ListWithCursor,
 			newCursor: shard.NewCursor,
 		}, w, e, starts, rec)
-	})
+	}))
 }
 
 // applyToShards stores the objects on their holder shards and applies the
@@ -389,7 +407,7 @@ func applyToShards(t *rapid.T, w World, shs []*shard.Shard, eng *engine.StorageE
 func TestC06Engine(t *testing.T) {
 	rec := ev.New("C06", "engine")
 	defer rec.Flush()
-	rapid.Check(t, func(t *rapid.T) {
+	rapid.Check(t, repeat(1, func(t *rapid.T) {
 		w := genWorld(t, 4)
 		e := expect(w, false)
 		starts := genStarts(t, e)
@@ -404,7 +422,7 @@ func TestC06Engine(t *testing.T) {
 		ep := &stor.Epoch{}
 		var cfgs []stor.ShardCfg
 		for i := 0; i < w.NShards; i++ {
-			cfgs = append(cfgs, stor.ShardCfg{Dir: filepath.Join(dir, fmt.Sprint(i)), Epoch: ep, MetaOpts: []meta.Option{fastBolt()}})
+			cfgs = append(cfgs, stor.ShardCfg{Dir: filepath.Join(dir, fmt.Sprint(i)), Epoch: ep, MetaOpts: []meta.Option{fastBolt()}, FSTOpts: noCombined})
 		}
 		en, err := stor.OpenEngine(cfgs)
 		must(t, "open engine", err)
@@ -437,5 +455,5 @@ func TestC06Engine(t *testing.T) {
 			newCursor: engine.NewCursor,
 			shardIdx:  idx,
 		}, w, e, starts, rec)
-	})
+	}))
 }
